@@ -19,6 +19,7 @@ import (
 
 	"github.com/icon-project/goloop/block"
 	"github.com/icon-project/goloop/common/crypto"
+	"github.com/icon-project/goloop/common/db"
 	"github.com/icon-project/goloop/common/log"
 	"github.com/icon-project/goloop/common/wallet"
 	"github.com/icon-project/goloop/consensus"
@@ -293,6 +294,49 @@ func ImportBlock(bm module.BlockManager, bd module.BlockData, flags int) (module
 		return nil, RejectedAsync, err
 	}
 	return bc, Accepted, nil
+}
+
+// WaitTxLocators blocks until the transaction locators of the given
+// transaction ids are visible in the database. goloop's txlocator manager
+// flushes them from a background goroutine after Finalize, and the test
+// service manager filters its pool by reading that bucket, so proposing the
+// next block before the flush would (nondeterministically) include an already
+// finalized transaction again. This only joins that goroutine's effect.
+func WaitTxLocators(dbase db.Database, ids [][]byte) error {
+	bk, err := dbase.GetBucket(db.TransactionLocatorByHash)
+	if err != nil {
+		return err
+	}
+	deadline := time.Now().Add(HangTimeout)
+	for _, id := range ids {
+		for {
+			bs, err := bk.Get(id)
+			if err == nil && len(bs) > 0 {
+				break
+			}
+			if time.Now().After(deadline) {
+				return fmt.Errorf("blkfx: locator of tx %x not flushed", id)
+			}
+			time.Sleep(200 * time.Microsecond)
+		}
+	}
+	return nil
+}
+
+// TxIDs lists the ids of a transaction list.
+func TxIDs(l module.TransactionList) [][]byte {
+	var out [][]byte
+	for it := l.Iterator(); it.Has(); {
+		tx, _, err := it.Get()
+		if err != nil {
+			panic(err)
+		}
+		out = append(out, tx.ID())
+		if err := it.Next(); err != nil {
+			panic(err)
+		}
+	}
+	return out
 }
 
 // Encode serialises header and body formats (header ‖ body).
